@@ -49,13 +49,16 @@ void bug(String fmt, ...)
 	__CPROVER_assume(0);
 #endif
 }
+/* assert(): the compiler switches assertions OFF unless -Wcheck is given (cmdline.c: _dont_assert = true), so a failed
+ * assertion is NOT a refusal the property can rely on: the model may end the path (assertions on) or simply return
+ * (assertions off, the default) -- obligations must hold either way */
+int nondet_v_assertions_on(void);
 void _do_assert(char *str, char *file, int line)
 {
-	g_diag = 1;
 #ifdef NATIVE_REPLAY
-	printf("REPLAY-DIAG assert: %s\n", str ? str : "?"); exit(v_replay_failed ? 1 : 0);
+	printf("REPLAY-NOTE an assertion would fail here (assertions are off by default): %s\n", str ? str : "?");
 #else
-	__CPROVER_assume(0);
+	if (nondet_v_assertions_on()) { g_diag = 1; __CPROVER_assume(0); }
 #endif
 }
 #endif
